@@ -175,3 +175,36 @@ fn clones_of_from_future_each_poll_their_own_future() {
   assert!(count(&l1) == 2 && at(&l1, 0) == Some(Ev::Next(v)) && at(&l1, 1) == Some(Ev::Complete));
   same(&l1, &l2);
 }
+
+// [C13] from_iter is lazy and every subscription runs the source anew: `into_iter()` of the given value
+// (user code: a cursor, a snapshot of shared data) is called on subscription — not when the pipeline is
+// built or cloned — and exactly once per subscription of a clone.
+#[derive(Clone)]
+struct CountedSource(Rc<Cell<u8>>, u8);
+impl IntoIterator for CountedSource {
+  type Item = u8;
+  type IntoIter = std::option::IntoIter<u8>;
+  fn into_iter(self) -> Self::IntoIter {
+    self.0.set(self.0.get() + 1);
+    Some(self.1).into_iter()
+  }
+}
+//@ bounded: a one-item source (the loop of from_iter runs at most twice)
+#[kani::proof]
+#[kani::unwind(4)]
+fn from_iter_runs_its_source_on_subscription_once_per_clone() {
+  let v: u8 = kani::any();
+  let runs = Rc::new(Cell::new(0u8));
+  let built = from_iter(CountedSource(runs.clone(), v)).map(|x: u8| x);
+  assert!(runs.get() == 0);            // building performs no work
+  let copy = built.clone();
+  assert!(runs.get() == 0);            // nor does cloning
+  let log1 = new_log();
+  built.actual_subscribe(Probe::new(&log1));
+  assert!(runs.get() == 1);
+  let log2 = new_log();
+  copy.actual_subscribe(Probe::new(&log2));
+  assert!(runs.get() == 2);            // the second subscription ran the source again
+  assert!(count(&log1) == 2 && at(&log1, 0) == Some(Ev::Next(v)) && at(&log1, 1) == Some(Ev::Complete));
+  assert!(count(&log2) == 2 && at(&log2, 0) == Some(Ev::Next(v)) && at(&log2, 1) == Some(Ev::Complete));
+}
